@@ -195,7 +195,9 @@ func (trans *BinOpTransform) initMatchType(para *influxql.BinOp, lExpr, rExpr in
 	trans.OpType = para.OpType
 	trans.On = para.On
 	trans.MatchKeys = para.MatchKeys
-	trans.MatchKeysForMatchCompute = para.MatchKeys
+	// a copy: appending the metric name below and sorting must not write into the array that MatchKeys shares
+	// (ignoring(a,b,c) has spare capacity: the sort then moved __name__ into MatchKeys and pushed the last label out)
+	trans.MatchKeysForMatchCompute = append(make([]string, 0, len(para.MatchKeys)+1), para.MatchKeys...)
 	trans.IncludeKeys = para.IncludeKeys
 	trans.ReturnBool = para.ReturnBool
 	if trans.matchType == influxql.OneToMany {
